@@ -1902,7 +1902,7 @@ Proof.
   pose proof (Pkr_fold_out sch _ (fun acc p => coll_assign sch acc o (fst p) (snd p)) cavs _ (fun s0 x P0 => Pkr_coll_assign sch WF s0 o (fst x) (snd x) P0) P3) as P4.
   destruct (fold_out (fun acc p => coll_assign sch acc o (fst p) (snd p)) (fold_left (setmany_apply sch o e) avs' s2) cavs) as [s4 u4|s4 er].
   - exact P4.
-  - cbn [fst]. destruct (ch || Nat.ltb 1 (length cavs)). apply Pkr_dirty. discriminate. exact P2.
+  - cbn [fst]. apply Pkr_dirty. discriminate.
 Qed.
 
 (* creation *)
